@@ -26,6 +26,7 @@ type Stat struct {
 //
 // Since 0.5.12
 func (st *SlimTrie) Stat() *Stat {
+	verifPoint("Stat", 0, 0)
 
 	ns := st.inner
 
